@@ -37,7 +37,7 @@ class Report(object):
     self.tier = tier
     self.seed = seed
     self.level = level
-    self.t0 = time.time()
+    self.t0 = time.perf_counter()
     self.coverage = {}
     self.assumptions = []
     self.violations = []
@@ -138,7 +138,7 @@ class Report(object):
       'level': self.level,
       'coverage': cov,
       'assumptions': self.assumptions,
-      'wall_s': round(time.time() - self.t0, 2),
+      'wall_s': round(time.perf_counter() - self.t0, 2),
       'violations': len(fresh),
     }
     os.makedirs(EVIDENCE_DIR, exist_ok=True)
